@@ -345,30 +345,114 @@ def junit_histories(l1: int, l2: int, l3: int, s1: int, s2: int, s3: int, same12
 
 NJ = tier(2, 3)
 
+
+# ---------------------------------------------------------------------------------------------------------------
+# HAR
+
+
+class _Har:
+    def __init__(self):
+        self.entries = []
+
+    def __enter__(self):
+        return self
+
+    def __exit__(self, *exc):
+        return False
+
+    def add_entry(self, **kwargs):
+        self.entries.append(kwargs)
+
+
+def run_har(recorder, sanitize: bool, preserve_bytes: bool):
+    q = queue.Queue()
+    for item in (Process(recorder=recorder), Finalize()):
+        q.put(item)
+    har = _Har()
+    saved = cassettes.harfile.open
+    cassettes.harfile.open = lambda path: har
+    try:
+        cassettes.har_writer(None, sanitize, preserve_bytes, q)
+    finally:
+        cassettes.harfile.open = saved
+    return har.entries
+
+
+HAR_SECRETS = ["QJZ", "s3cr3t/+", "a b"]
+HAR_KEYS = [("api_key", True), ("access_token", True), ("page", False)]
+HAR_CONTENTS = [b"ok", b"", None, b"caf" + bytes([0xE9]), bytes([0x7B, 0x22, 0xC3]), bytes([0xFF, 0xFE, 0x00])]
+
+
+def har_entry(secret: int, key: int, content: int, sanitize: bool, preserve_bytes: bool, declared_json: bool, userinfo: bool) -> bool:
+    """
+    pre: content == param(0) % len(HAR_CONTENTS) and 0 <= secret < len(HAR_SECRETS) and 0 <= key < len(HAR_KEYS) and 0 <= content < len(HAR_CONTENTS)
+    post: _
+    """
+    from urllib.parse import quote
+
+    value = pick(HAR_SECRETS, secret)
+    name, sensitive = pick(HAR_KEYS, key)
+    uri = "http://" + ("user:PWZ@" if userinfo else "") + "h.io/a?" + name + "=" + quote(value, safe="") + "&lim=1"
+    body = pick(HAR_CONTENTS, content)
+    resp_headers = {"Content-Type": ["application/json; charset=utf-8" if declared_json else "text/plain"], "Set-Cookie": ["sid=" + quote(value, safe="")]}
+    recorder = make_recorder(uri, "GET", {"Authorization": ["Bearer " + value], "X-Plain": ["p"]}, None, 200, "OK", resp_headers, body, 1, 1)
+    try:
+        entries = run_har(recorder, sanitize, preserve_bytes)
+    except Exception:
+        return False  # the writer (its own thread in a run) must survive any payload: a crash truncates the file and loses every later exchange
+    if len(entries) != 1:
+        return False  # each exchange exactly once
+    request, response = entries[0]["request"], entries[0]["response"]
+    pairs = [(r.name, r.value) for r in request.queryString]
+    if sanitize:
+        # no output channel of the entry shows the credential: URL, queryString records, request and response headers, cookies
+        encoded = quote(value, safe="")
+        always = [r.value for r in request.headers if r.name == "Authorization"] + [r.value for r in response.headers if r.name == "Set-Cookie"] + [c.value for c in response.cookies]
+        in_query = [request.url] + [v for n, v in pairs if n == name]
+        for text in always + (in_query if sensitive else []):
+            if value in text or encoded in text:
+                return False
+        if userinfo and "PWZ" in request.url:
+            return False
+        if not sensitive and pairs != [(name, value), ("lim", "1")]:
+            return False
+    elif pairs != [(name, value), ("lim", "1")] or request.url != uri:
+        return False
+    text = response.content.text
+    if preserve_bytes or body is None:
+        return True
+    return isinstance(text, str)
+
+
 _V = ["schemathesis.cli.commands.run.handlers.cassettes.vcr_writer", "schemathesis.cli.commands.run.handlers.cassettes.write_double_quoted",
       "schemathesis.core.output.sanitization.sanitize_url", "schemathesis.core.output.sanitization.sanitize_value"]
 _VS = ["the writer's queue is pre-filled and its LazyFile is an in-memory buffer (no writer thread)", "PyYAML safe_load is the judge of validity (trusted)"]
 OBLIGATIONS = [
-    Ob(fn="double_quoted", clause="bodies and coverage descriptions: the double-quoted scalar written for any text decodes back to exactly that text (lossless for UTF-8 text) and is a valid one-line YAML scalar",
+    Ob(fn="har_entry", props=["C15", "C16"], clause="HAR: each exchange appears exactly once whatever bytes the response holds (invalid UTF-8 included, the writer never crashes); with sanitization on neither the URL, the queryString records, the headers nor the cookies of the entry show a credential, with it off the query is recorded as sent",
+       timeout=400, params=range(6), functions=["schemathesis.cli.commands.run.handlers.cassettes.har_writer", "schemathesis.cli.commands.run.handlers.cassettes._extract_cookies", "schemathesis.core.output.sanitization.sanitize_url",
+                                                "schemathesis.core.output.sanitization.sanitize_value"],
+       symbolic="which of 3 secret texts travels under which of 3 query keys (2 sensitive) / Authorization / Set-Cookie; which of 6 response payloads (text, empty, none, latin-1 byte, truncated UTF-8 sequence, BOM-like bytes); sanitize and preserve-bytes switches; declared media type; credentials embedded in the URL or not",
+       bounds="3 x 3 x 6 x 2 x 2 x 2 concrete shapes", stubs=["harfile.open replaced by a recorder of add_entry() arguments (the JSON text harfile writes is outside)", "clock pinned"]),
+    Ob(fn="double_quoted", props=["C16"], clause="bodies and coverage descriptions: the double-quoted scalar written for any text decodes back to exactly that text (lossless for UTF-8 text) and is a valid one-line YAML scalar",
        timeout={"quick": 300, "thorough": 900}, params={"quick": [0, 1, 2, 3], "thorough": range(6)}, param_names=CLASSES,
        functions=["schemathesis.cli.commands.run.handlers.cassettes.write_double_quoted"],
        symbolic="one character of the class (escaped characters are realised when their code is formatted: one path each), which neighbours surround it",
        bounds="text = [neighbour] + 1 character + [neighbour], neighbours from 4 choices (none, quote, backslash, space); classes: printable ASCII, C0/DEL/C1, BMP text, separators/BOM/noncharacters; thorough adds sampled surrogates and astral characters",
        outside=["strings longer than 3 characters", "all surrogates / astral characters (sampled only)"]),
-    Ob(fn="double_quoted_none", clause="absent text is written as null", timeout=60, functions=["schemathesis.cli.commands.run.handlers.cassettes.write_double_quoted"], reach=True,
+    Ob(fn="double_quoted_none", props=["C16"], clause="absent text is written as null", timeout=60, functions=["schemathesis.cli.commands.run.handlers.cassettes.write_double_quoted"], reach=True,
        symbolic="(none)", bounds="single case"),
-    Ob(fn="vcr_uri", clause="the cassette is valid YAML and carries the URL actually requested, for every character requests leaves unencoded in a URL",
+    Ob(fn="vcr_uri", props=["C16"], clause="the cassette is valid YAML and carries the URL actually requested, for every character requests leaves unencoded in a URL",
        timeout={"quick": 300, "thorough": 600}, functions=_V, symbolic="one URL character (23 reserved/unreserved punctuation marks + alphanumerics), preserve-bytes",
        bounds="one character inside the path of a fixed URL", stubs=_VS),
-    Ob(fn="vcr_header_value", clause="header values with any latin-1 text survive the cassette", timeout={"quick": 300, "thorough": 600}, params=range(4), functions=_V,
+    Ob(fn="vcr_header_value", props=["C16"], clause="header values with any latin-1 text survive the cassette", timeout={"quick": 300, "thorough": 600}, params=range(4), functions=_V,
        symbolic="one latin-1 character inside a request or response header value (realised by json.dumps: one path per character), sanitize",
        bounds="all 253 latin-1 characters except NUL/CR/LF, in 4 shards", stubs=_VS),
-    Ob(fn="vcr_shapes", clause="all case metadata shapes (none, fuzzing, coverage), network errors without a response, empty bodies: valid YAML, each exchange exactly once",
+    Ob(fn="vcr_shapes", props=["C16"], clause="all case metadata shapes (none, fuzzing, coverage), network errors without a response, empty bodies: valid YAML, each exchange exactly once",
        timeout={"quick": 300, "thorough": 600}, functions=_V, symbolic="metadata shape (4), check results (3), response present, bodies present, sanitize, preserve-bytes, 1-2 exchanges", bounds="2^4 x 4 x 3 x 2 shapes", stubs=_VS),
-    Ob(fn="cassette_handler", clause="each exchange delivered to the reporters reaches the cassette exactly once (also the final replay of a failing stateful scenario)",
+    Ob(fn="cassette_handler", props=["C16"], clause="each exchange delivered to the reporters reaches the cassette exactly once (also the final replay of a failing stateful scenario)",
        timeout=120, functions=["schemathesis.cli.commands.run.handlers.cassettes.CassetteWriter.handle_event"], symbolic="scenario status (5), is_final flag, 1-2 scenarios", bounds="<= 2 scenarios",
        stubs=["CassetteWriter built without starting its writer thread"]),
-    Ob(fn="junit_histories", clause="producing the JUnit report never crashes, for any order of scenarios and repeated failures across phases",
+    Ob(fn="junit_histories", props=["C16"], clause="producing the JUnit report never crashes, for any order of scenarios and repeated failures across phases",
        timeout={"quick": 300, "thorough": 900}, functions=["schemathesis.cli.commands.run.handlers.junitxml.JunitXMLHandler.handle_event", "schemathesis.cli.commands.run.handlers.junitxml.add_failure",
                                                             "schemathesis.cli.commands.run.context.Statistic.on_scenario_finished", "schemathesis.core.failures.format_failures"],
        symbolic="label and status of each scenario, whether its failure equals an earlier one, an error event after each", bounds={"quick": "2 scenarios over 3 labels (two operations and the stateful phase)", "thorough": "3 scenarios"},
